@@ -42,9 +42,7 @@ func (p *printer) printFile(f *ir.File) {
 
 	p.writef("BundleImports: []ir.BundleImport{\n")
 	for _, imp := range f.BundleImports {
-		p.writef("Line: %d,\n", imp.Line)
-		p.writef("PkgPath: %q,\n", imp.PkgPath)
-		p.writef("Prefix: %q,\n", imp.PkgPath)
+		p.writef("{Line: %d, PkgPath: %q, Prefix: %q},\n", imp.Line, imp.PkgPath, imp.Prefix)
 	}
 	p.writef("},\n")
 
@@ -60,7 +58,7 @@ func (p *printer) printReflectElem(key string, v reflect.Value, insideList bool)
 }
 
 func (p *printer) printReflectElemNoNewline(key string, v reflect.Value, insideList bool) bool {
-	if v.IsZero() {
+	if v.IsZero() && !insideList {
 		return false
 	}
 
